@@ -149,6 +149,27 @@ func execC14(t *testing.T, c C14Case) (v Verdict) {
 			return false
 		})
 		kit.Settle()
+		// warm-up: one successful RPC of each kind, so that anything the connection starts lazily
+		// and keeps for its lifetime belongs to the idle level it must return to
+		for kind := 0; kind < 4; kind++ {
+			if kind == kit.KindUnary {
+				_, _ = kit.Invoke(context.Background(), cc, "u-ok", []byte("w"))
+				continue
+			}
+			if cs, err := cc.NewStream(context.Background(), kit.StreamDescFor(kind), kit.FullMethod("s-ok")); err == nil {
+				_ = kit.SendBytes(cs, []byte("w"))
+				_ = cs.CloseSend()
+				for {
+					if _, err := kit.RecvBytes(cs); err != nil {
+						break
+					}
+				}
+			}
+		}
+		kit.Settle()
+		if n := goat.VerifClientCalls(cc) + goat.VerifServerStreams(); n != 0 {
+			v.failf("warm-up: %d registrations left after four successful RPCs", n)
+		}
 		idle := creationSites(kit.LiveInBubble())
 		for ri, round := range c.Rounds {
 			var wg sync.WaitGroup
